@@ -293,6 +293,8 @@ let sem_chain_all = sem_chain_gen ~all:true
    programs' predicates, and there must be one axiom per predicate of L and R. *)
 let sem_transition (e : Sexp.t) : Sexp.t =
   match e with
+  (* no problem was emitted (a right program without rules has no conjecture): nothing to judge *)
+  | L [ _; L [ A "none" ] ] -> L [ A "ok"; A "0" ]
   | L [ L [ l; r ]; th ] ->
     let l = program l and r = program r in
     let fs = theory th in
@@ -380,7 +382,15 @@ let problem_pipeline (e : Sexp.t) : Sexp.t =
 
 let strong_transition (e : Sexp.t) : Sexp.t =
   match e with
-  | L [ l; r ] -> of_theory (M.Transition.transition_axioms (program l) (program r))
+  | L [ l; r ] ->
+    (* the implementation side runs the whole StrongEquivalenceTask::decompose (tau-star, forward,
+       independent, no simplification) and reads the transition axioms off the first problem: tau* of
+       the left, then of the right program may panic (global counter overflow, F11), and a right program
+       without rules yields no problem at all *)
+    let l = program l and r = program r in
+    (match M.TauStar.tau_star l, M.TauStar.tau_star r with
+     | Some _, Some _ -> if r = [] then L [ A "none" ] else of_theory (M.Transition.transition_axioms l r)
+     | _ -> L [ A "panic" ])
   | _ -> bad "strong_transition: %s" (to_string e)
 
 let () =
